@@ -4,6 +4,7 @@ The generator's instance tree (which map node each segment was meant to be, whic
 the reference model for the XML nesting.
 """
 import io
+import re
 import os
 import tempfile
 import xml.etree.ElementTree as ET
@@ -115,6 +116,8 @@ def check_case(case):
                     continue
                 for ci, c in enumerate(e):
                     exp.append(('%s%02d-%02d' % (s.id, ei + 1, ci + 1), c))
+        exp = [(a, xclean(b)) for a, b in exp]
+        exp = [(a, b) for a, b in exp if b != '' or '-' in a]
         if s.id == 'ISA':
             # the ISA separator fields are exempt (they are rewritten, and control characters cannot live in XML)
             exp = [(a, b) for a, b in exp if a not in ('ISA11', 'ISA16')]
@@ -144,7 +147,7 @@ def check_case(case):
     d2, back = x12ref.tokenize(buf.getvalue())
     a = []
     for i, s in enumerate(src):
-        els = [list(e) for e in s.elems]
+        els = [[xclean(c) for c in e] for e in s.elems]
         for (si, ei) in nu:
             if si == i and ei < len(els):
                 els[ei] = ['']
@@ -169,6 +172,14 @@ def check_case(case):
         out.fail('roundtrip:%s' % ('count' if len(a) != len(b) else 'value'),
                  'segment #%d: source %r, after XML round trip %r' % (j, (a[j:j + 1] or [None])[0], (b[j:j + 1] or [None])[0]))
     return out
+
+
+XML_ILLEGAL = re.compile('[\x00-\x08\x0b\x0c\x0e-\x1f]')
+
+
+def xclean(v):
+    """XML 1.0 has no way to hold these characters, not even as references: a value loses them on the way (ledger)"""
+    return XML_ILLEGAL.sub('', v)
 
 
 def _canon(pairs):
@@ -200,7 +211,7 @@ def make_case(doc, dl, acc):
             'meta': {'file': doc.entry['file'], 'delims': list(dl)}}
 
 
-VALUE_FAULTS = ['too-long', 'too-short', 'wrong-char-class', 'bad-date', 'bad-time', 'required-removed', 'extra-component', 'extra-element']
+VALUE_FAULTS = ['too-long', 'too-short', 'wrong-char-class', 'bad-date', 'bad-time', 'required-removed', 'extra-component', 'extra-element', 'control-char', 'control-char']
 
 
 def run_entry(entry, n, seed, acc, tier):
@@ -250,6 +261,16 @@ def run_entry(entry, n, seed, acc, tier):
                 k = len(v) // 2
                 w = ch.choice([x for x in ('\r', '\r\n', '\n', '\t', '\r') if not (set(x) & set(dl))])
                 sg.vals[ei] = [v[:k] + w + v[k + 1:]]
+        if ch.chance(.12):
+            # a value made of nothing but a character XML cannot hold: the element arrives empty, and must still come back
+            sites = [(sg, ei) for sg in doc.segs if sg.id not in ('ISA', 'GS', 'ST', 'SE', 'GE', 'IEA')
+                     for ei, c in enumerate(sg.node.children)
+                     if c.kind == 'ele' and c.dtype == 'AN' and not c.codes and not c.ext and c.usage != 'N' and ei > 0 and ei < len(sg.vals)
+                     and sg.vals[ei][0] != '' and c.de not in ('1250', '1251') and not c.regex]
+            cc = [x for x in ('\x07', '\x1d', '\x1f', '\x01') if x not in dl]
+            if sites and cc:
+                sg, ei = sites[ch.integer(0, len(sites) - 1)]
+                sg.vals[ei] = [ch.choice(cc)]
         notused = []
         if ch.chance(.4):
             cands = faults.candidates(doc, 'not-used-filled')
